@@ -333,7 +333,10 @@ def scripted_case(rng: common.Rng) -> dict[str, Any]:
                 pts.append(x)
             script.append([rng.pick(names), rng.pick(["v", "v", "j"]), x])
         runs.append({"script": script, "max_iter": rng.pick([1, 2, 3, 4, 6, 8]), "reset": rng.chance(0.6)})
-    return {"kind": kind, "nan": rng.chance(0.3), "normalize": rng.chance(0.5), "store_jac": rng.chance(0.7), "runs": runs,
+    nan = rng.chance(0.3)
+    return {"kind": kind, "nan": nan, "normalize": rng.chance(0.5), "store_jac": rng.chance(0.7), "runs": runs,
+            # the user may switch the NaN stop off: NaN values are then recorded like any other value
+            "stop_if_nan": (not nan) or rng.chance(0.5),
             "x0": [rng.pick(grid), rng.pick(grid)],
             # termination criteria other than the budget: a time limit that is always exceeded, loose tolerances
             "max_time": rng.pick([0, 0, 0, 1e-12]), "ftol_abs": rng.pick([0, 0, 100.0]), "xtol_abs": rng.pick([0, 0, 0, 100.0])}
@@ -345,6 +348,8 @@ def run_scripted(case) -> list[dict[str, Any]]:
     out = []
     with tracing() as tr:
         pb = make_problem(case["kind"], tr, nan_region=case["nan"], x0=case["x0"])
+        if not case.get("stop_if_nan", True):
+            pb.stop_if_nan = False
         ds = pb.design_space
         for i, r in enumerate(case["runs"]):
             script = r["script"]
